@@ -263,8 +263,8 @@ def disco_loop_asm_format(opc, version_tuple, co, real_out, fn_name_map, all_fns
             if m:
                 basename = m.group(1)
                 if basename != "module":
-                    mapped_name = code_uniquify(basename, c.co_code)
-                    c_compat.co_name = mapped_name
+                    # Not "mapped_name": that is this code object's own name.
+                    c_compat.co_name = code_uniquify(basename, c.co_code)
             c_compat.freeze()
             new_consts.append(c_compat)
         else:
